@@ -20,6 +20,9 @@ type TokenTransferLog struct {
 	Raw []byte
 	buf *bytes.Buffer
 	iow *io.BinWriter
+	// owned is true if Raw is a buffer of our own. What a log is created with
+	// can be the value held by the storage layer it was read from.
+	owned bool
 }
 
 // NEP17Transfer represents a single NEP-17 Transfer event.
@@ -116,6 +119,11 @@ func (bs *TokenTransferInfo) EncodeBinary(w *io.BinWriter) {
 
 // Append appends a single transfer to a log.
 func (lg *TokenTransferLog) Append(tr io.Serializable) error {
+	if !lg.owned {
+		// Never write into the given slice or into its spare capacity.
+		lg.Raw = bytes.Clone(lg.Raw)
+		lg.owned = true
+	}
 	// The first entry, set up counter.
 	if len(lg.Raw) == 0 {
 		lg.Raw = append(lg.Raw, 0)
